@@ -43,7 +43,14 @@ class Filt:
         if self.attrs:
             kw["attrs"] = {k: v[1] for k, v in self.attrs.items()}
         if self.string is not None:
-            kw["string"] = self.string[1]
+            # the deprecated spelling `text=` is the same criterion (one case in four, a function of the filter so replays repeat it)
+            import zlib, warnings
+            alias = zlib.crc32(repr((self.kind, self.desc, str(self.string[1]))).encode()) % 4 == 0
+            kw["text" if alias else "string"] = self.string[1]
+            if alias:
+                with warnings.catch_warnings():
+                    warnings.simplefilter("ignore")
+                    return SoupStrainer(**kw)
         return SoupStrainer(**kw)
 
     @staticmethod
@@ -127,7 +134,14 @@ def gen_filter(r, present=()):
         if y < 0.7:
             return Filt("string", string=("str", r.choice(["a", " ", "\n", "b", "ab", "x y"])))
         return Filt("string", string=("list", [r.choice(["a", " ", "b"]), r.choice(["\n", "ab"])]))
-    return Filt("mixed", name=name_crit(), string=("re", re.compile("a")))
+    # mixed filters: the tag part may be a name, an attribute criterion, or both; the string part any string criterion
+    y = r.random()
+    sc = r.choice([("re", re.compile("a")), ("re", re.compile(".")), ("str", "a"), ("true", True), ("list", ["a", " "])])
+    if y < 0.4:
+        return Filt("mixed", name=name_crit(), string=sc)
+    if y < 0.8:
+        return Filt("mixed", attrs={r.choice(ATTRS): attr_crit()}, string=sc)
+    return Filt("mixed", name=name_crit(), attrs={r.choice(ATTRS): attr_crit()}, string=sc)
 
 
 def describe(f: Filt):
@@ -298,6 +312,20 @@ def check_one(ctx, nodes, text, f, stream, lines=None, impls=None, mcases=None):
     except Exception as e:
         ctx.violation(f"parse raised {type(e).__name__}: {e}", case={"text": text, "filter": describe(f)}, stream=stream)
         return
+    # "and nothing else": what the filter refused is not reachable from what it kept through ANY link
+    from . import heapsim as _hs
+    wld = c03.SoupWorld(soup)
+    lmsg = _hs.oracle_c01(wld)
+    if not lmsg:
+        inside = {id(o) for o in wld.objs.values()}
+        for o in wld.objs.values():
+            for attr in ("next_element", "previous_element", "next_sibling", "previous_sibling", "parent"):
+                x = getattr(o, attr)
+                if x is not None and id(x) not in inside:
+                    lmsg = f"{wld.label(o)}.{attr} points at a refused element ({type(x).__name__} {str(x)[:30]!r})"
+    if lmsg:
+        ctx.violation("the filtered parse is not one consistent tree / reaches refused elements: " + lmsg,
+                      case={"text": text, "filter": describe(f)}, observed=lmsg, stream=stream)
     got = c04.shape(soup, with_pos=False)
     ctx.count("filter:" + f.kind)
     if lines is not None:
